@@ -20,6 +20,7 @@ package dns
 
 import (
 	"context"
+	"errors"
 	"net"
 	"strconv"
 	"strings"
@@ -91,6 +92,21 @@ func (e ExtResolver) exchange(ctx context.Context, msg *dns.Msg) (*dns.Msg, erro
 		resp, _, lastErr = e.cl.ExchangeContext(ctx, msg, net.JoinHostPort(srv, e.Cfg.Port))
 		if lastErr != nil {
 			continue
+		}
+
+		// The answer does not fit into a datagram. What is in it is not
+		// the RRset (it may well be empty): ask again over TCP.
+		if resp.Truncated {
+			tcpCl := *e.cl
+			tcpCl.Net = "tcp"
+			resp, _, lastErr = tcpCl.ExchangeContext(ctx, msg, net.JoinHostPort(srv, e.Cfg.Port))
+			if lastErr != nil {
+				continue
+			}
+			if resp.Truncated {
+				lastErr = errors.New("dns: truncated response when looking up " + msg.Question[0].Name)
+				continue
+			}
 		}
 
 		if resp.Rcode != dns.RcodeSuccess {
